@@ -39,7 +39,7 @@ SliceSegs == {Seg("SLICE", k) : k \in (IF Rich THEN {"0:1", "0:2", "1:1", "-1:-1
                                        ELSE {"0:2", "-1:-1", "1:5", "0:-1", "-5:1", "a:zz", "0:a"})}
 AnchSegs == IF Rich THEN {Seg("ANCHOR", "A"), Seg("ANCHOR", "zz")} ELSE {Seg("ANCHOR", "A")}
 Ops == IF Rich THEN {"=", "^", "$", "%", "<", ">", "<=", ">=", "=~"} ELSE {"=", "^", "<", ">=", "=~"}
-Terms(d) == ScalarTexts(d) \cup (IF Rich THEN StrKeysOf(d) \cup {"a", "1", "zz", "0.5", "true"} ELSE {"a", "1"})
+Terms(d) == ScalarTexts(d) \cup IntKeysOf(d) \cup StrKeysOf(d) \cup (IF Rich THEN {"a", "1", "zz", "0.5", "true"} ELSE {"a", "1"})
 SearchDot(d) == {SearchSeg(inv, op, ".", t) : inv \in BOOLEAN, op \in Ops, t \in Terms(d)}
 SearchAttr(d) == {SearchSeg(inv, op, a, t) : inv \in BOOLEAN, op \in (IF Rich THEN {"=", "^", "<", ">="} ELSE {"=", "<"}),
                                             a \in StrKeysOf(d) \cup (IF Rich THEN {"zz"} ELSE {}), t \in Terms(d)}
